@@ -197,21 +197,17 @@ type callResult struct {
 // worker; its budget is many orders of magnitude above any legitimate call.
 func guarded(budget time.Duration, measureAlloc bool, f func()) (res callResult) {
 	done := make(chan callResult, 1)
+	var m0, m1 runtime.MemStats
+	if measureAlloc {
+		runtime.ReadMemStats(&m0)
+	}
 	go func() {
 		var r callResult
-		var m0, m1 runtime.MemStats
-		if measureAlloc {
-			runtime.ReadMemStats(&m0)
-		}
 		defer func() {
 			if p := recover(); p != nil {
 				r.panicked = true
 				r.panicMsg = fmt.Sprint(p)
 				r.stack = string(debug.Stack())
-			}
-			if measureAlloc {
-				runtime.ReadMemStats(&m1)
-				r.alloc = m1.TotalAlloc - m0.TotalAlloc
 			}
 			done <- r
 		}()
@@ -219,13 +215,33 @@ func guarded(budget time.Duration, measureAlloc bool, f func()) (res callResult)
 	}()
 	select {
 	case r := <-done:
+		if measureAlloc {
+			runtime.ReadMemStats(&m1)
+			r.alloc = m1.TotalAlloc - m0.TotalAlloc
+		}
 		return r
 	case <-time.After(budget):
-		return callResult{timeout: true}
+		// The call is abandoned (a goroutine cannot be killed). What it has requested from
+		// the allocator so far is already accounted: a call that is slow because it is
+		// clearing gigabytes is reported as an allocation violation, not as a hang.
+		r := callResult{timeout: true}
+		if measureAlloc {
+			runtime.ReadMemStats(&m1)
+			r.alloc = m1.TotalAlloc - m0.TotalAlloc
+		}
+		abandoned = true
+		return r
 	}
 }
 
-const libBudget = 20 * time.Second
+// abandoned is set when a library call had to be left running; the worker stops exploring
+// after recording the violation (the stray goroutine may hold gigabytes).
+var abandoned bool
+
+// Abandoned reports whether a call of this process was abandoned.
+func Abandoned() bool { return abandoned }
+
+const libBudget = 6 * time.Second
 
 // stepLimitReader fails a read loop that never ends (reader-driven non-termination).
 type stepLimitReader struct {
